@@ -35,9 +35,11 @@ STEP_OUTSIDE = ("values beyond the ranges above; fractional share balances; more
 PROPS = {
     "C01": {
         "quick": [{"name": "steps", "harnesses": ["c01_buy_a0_m7", "c01_buy_a2_m7", "c01_sell_a0_m1", "c01_sell_a1_m3",
-                                                 "c01_roc_a0_m1", "c01_sfla_a0_m1", "c01_split_a0_m1", "c01_split_a2_m7"],
-                   "jobs": 8}],
-        "thorough": [{"name": "steps", "harnesses": C01_BUY + C01_SELL + C01_ROC + C01_SFLA + C01_SPLIT, "jobs": 8}],
+                                                 "c01_roc_a0_m1", "c01_sfla_a0_m1", "c01_split_a0_m1", "c01_split_a2_m7",
+                                                 "c01_csvtx_defaults"],
+                   "jobs": 9}],
+        "thorough": [{"name": "steps", "harnesses": C01_BUY + C01_SELL + C01_ROC + C01_SFLA + C01_SPLIT + ["c01_csvtx_defaults"],
+                      "jobs": 8, "timeout_s": 14000, "harness_timeout_s": 3000}],
         # harnesses in which only one of the accepted/rejected branches exists
         "expect_covers": {"c01_roc_a2_m7": 1, "c01_sfla_a2_m7": 1, "c01_sfla_a0_m1": 1, "c01_sfla_a1_m3": 1,
                           "c01_sell_a1_m1": 1, "c01_split_a2_m7": 2},
@@ -47,21 +49,167 @@ PROPS = {
     },
 }
 
+
+WINDOW_FUNCS = [
+    "portfolio::bookkeeping::superficial_loss::{get_superficial_loss_ratio,get_superficial_loss_info,calc_superficial_loss_ratio}",
+    "portfolio::bookkeeping::superficial_loss::{get_first_day_in_superficial_loss_period,get_last_day_in_superficial_loss_period}",
+    "SuperficialLossInfo::buying_affiliate_split_adjusted_shares_at_eop_total", "util::decimal::constrained_min",
+    "AffiliatePortfolioSecurityStatuses::{get_latest_post_status,get_latest_post_status_for_affiliate}",
+    "time::Date +/- Duration (real crate)",
+]
+WINDOW_BOUNDS = ("the loss sale settles on day 100 of 2020 (concrete); every other row settles at a symbolic offset 0..35 "
+                 "days before/after it (so 29,30,31 and same-day in both file orders are inside), share counts 1..15, "
+                 "opening balances 0..15; the action and affiliate at each index are fixed per harness (shapes listed in "
+                 "samples); unwind 5-6")
+WINDOW_OUTSIDE = ("more than 2 neighbours of the sale; more than 3 affiliates; fractional share counts in window rows; "
+                  "windows crossing a year boundary (the real time crate computes the +/-30 days, but only from the "
+                  "concrete anchor); split ratios other than m-for-1 with m<=3 in the C15 window shape")
+
+PROPS["C02"] = {
+    "quick": [{"name": "window", "harnesses": ["c02_w_buy_sale_buy"], "jobs": 1, "mem_gb": 28, "harness_timeout_s": 2400}],
+    "thorough": [{"name": "window", "harnesses": ["c02_w_buy_sale_buy", "c02_w_otherbuy_sale_sell",
+                                                  "c02_w_regbuy_sale_otherbuy_othersell", "c02_amount_one_buyer",
+                                                  "c02_specified_sfl_validated"],
+                  "jobs": 3, "mem_gb": 28, "timeout_s": 20000, "harness_timeout_s": 6000}],
+    "functions": WINDOW_FUNCS + ["portfolio::bookkeeping::delta_list::get_delta_superficial_loss_info (thorough)",
+                                 "util::math::c_maybe_round_to_effective_cent (thorough)"],
+    "bounds": WINDOW_BOUNDS,
+    "outside": WINDOW_OUTSIDE,
+}
+PROPS["C06"] = {
+    "quick": [{"name": "sums", "harnesses": ["c06_year_sums_3"], "jobs": 1}],
+    "thorough": [{"name": "sums", "harnesses": ["c06_year_sums_3"], "jobs": 1}],
+    "functions": ["portfolio::cumulative_gains::calc_security_cumulative_capital_gains",
+                  "CumulativeCapitalGains::capital_gains_year_totals_keys_sorted (through the map model)"],
+    "bounds": ("3 rows with symbolic optional gains in [-50.00, 50.00] settling on Dec 30/31 2019 or Jan 1/2 2020 "
+               "(symbolic, non-decreasing), trade date = the day before settlement; unwind 5"),
+    "outside": ("more than 3 rows / 2 years; the aggregate over securities (calc_cumulative_capital_gains: 21 GB in "
+                "CBMC, not claimed); rendering and rounding of the figures (Decimal Display, tabled: not encodable)"),
+}
+PROPS["C07"] = {
+    "quick": [{"name": "order", "harnesses": ["c07_tx_ord_is_date_then_index", "c07_sort3_is_stable_by_date_then_index"],
+               "jobs": 2}],
+    "thorough": [{"name": "order", "harnesses": ["c07_tx_ord_is_date_then_index", "c07_sort3_is_stable_by_date_then_index"],
+                  "jobs": 2}],
+    "functions": ["<Tx as Ord>::cmp / PartialOrd", "<CsvTx as Ord>::cmp", "Vec<Tx>::sort (std driftsort/smallsort) on 3 rows",
+                  "Tx::to_csvtx"],
+    "bounds": ("two rows with symbolic settlement day over 2019-12-30..2020-01-03, read index 0..70000, trade dates in "
+               "the opposite order; sort: three rows, symbolic days 1..3, every assignment of read indices 0,1,2"),
+    "outside": ("more than 3 rows in one sort; the CSV text layer (header case/padding, column permutation, unknown "
+                "columns, read-index assignment across files): parse_tx_csv sits behind csv::Reader, not encodable"),
+}
+PROPS["C11"] = {
+    "quick": [{"name": "struct", "harnesses": ["c11_roundtrip_buy_sell", "c11_roundtrip_roc_sfla_split"], "jobs": 2}],
+    "thorough": [{"name": "struct", "harnesses": ["c11_roundtrip_buy_sell", "c11_roundtrip_roc_sfla_split"], "jobs": 2}],
+    "functions": ["Tx::to_csvtx", "populate_csvtx_fields_from_action_specifics", "<Tx as TryFrom<CsvTx>>::try_from",
+                  "buy_or_sell_common_attrs_from_csv_tx", "get_valid_exchange_rate", "CurrencyAndExchangeRate::try_new"],
+    "bounds": ("every action; shares/price/commission/amounts 16-bit mantissas at scales 2-4; CAD or USD with symbolic "
+               "rate, optional separate commission currency (CAD or USD), optional superficial-loss marker with force "
+               "flag, split ratios 1..100 with reverse_integer_only symbolic, default/b/global affiliate; unwind 5/12"),
+    "outside": ("the text layer: csv::Writer/Reader, to_string_min_precision and SplitRatio::parse (regex), 28-digit "
+                "Display/from_str, memo quoting, byte-identical rewrite -- library state machines that do not get "
+                "through CBMC"),
+}
+PROPS["C15"] = {
+    "quick": [{"name": "splits", "harnesses": ["c15_w_buy_split_sale", "c01_split_a0_m1"], "jobs": 2, "mem_gb": 28,
+               "harness_timeout_s": 2400}],
+    "thorough": [{"name": "splits", "harnesses": ["c15_w_buy_split_sale"] + C01_SPLIT, "jobs": 3, "mem_gb": 28,
+                  "timeout_s": 20000, "harness_timeout_s": 6000}],
+    "functions": WINDOW_FUNCS + ["delta_for_tx (Split arm)", "SplitRatio::pre_to_post_factor"],
+    "bounds": ("window: Buy x, m-for-1 split (m 1..3), loss sale; buy and split at symbolic offsets 0..35/0..45 days "
+               "before the sale; step: a-for-b split, a,b in 1..9, balances in tenths of a share; " + WINDOW_BOUNDS),
+    "outside": ("restating a whole history and comparing the two runs (pipeline level) was not encoded: the claim is the "
+                "per-row Split rule (shares x a/b, total cost unchanged) and the split-adjusted window counts; reverse "
+                "and fractional ratios inside the window are only in the C04 look-ahead harness; global-split expansion "
+                "is checked under C09"),
+}
+PROPS["C16"] = {
+    "quick": [{"name": "state", "harnesses": ["c16_opening_status_equals_opening_buy"], "jobs": 1}],
+    "thorough": [{"name": "state", "harnesses": ["c16_opening_status_equals_opening_buy"], "jobs": 1}],
+    "functions": ["AffiliatePortfolioSecurityStatuses::new (with initial status)", "delta_for_tx (Buy)",
+                  "set_latest_post_status", "get_next_pre_status", "get_latest_post_status"],
+    "bounds": ("opening position n = 1..15 (thorough 1..100) whole shares, total cost 0..10.00 (100.00); compared with "
+               "an opening purchase of n shares whose total cost is the same amount; the state is read back through "
+               "every affiliate (default, b, registered)"),
+    "outside": ("zero-share opening positions (no purchase equivalent), fractional shares; the 'dated more than 30 days "
+                "before' clause (the window scan never reaches such a row: C02 harnesses place rows up to 35 days out); "
+                "parse_initial_status (str::split/trim/Decimal::from_str over symbolic bytes: not attempted); lookup of "
+                "other securities' opening positions in approot (async, csv readers)"),
+}
+
 # ---------------------------------------------------------------------------
 # Claim texts (MANIFEST.level_claimed.text / level_note) per claimed property.
+TRUSTED = ("Trusted base: decimal model crate instead of rust_decimal (exact i64-mantissa arithmetic, 6-digit truncated "
+           "division), 4-slot map model instead of std HashMap/HashSet, formatting and Affiliate::from_strep stubs; "
+           "a counterexample is reported only after the same harness fails natively against the real crates. ")
 CLAIMS = {
     "C01": {
         "text": ("Bounded model checking (Kani/CBMC) of the real delta_for_tx from an arbitrary valid portfolio state: for "
                  "every Buy/Sell/RoC/SfLA/Split with symbolic amounts, rates and flags inside the stated ranges the solver "
                  "shows the reported balance, all-affiliate balance, ACB and gain equal the average-cost rule (aligned with "
-                 "the model's truncated quotient), per affiliate, registered = shares only. Histories of any length follow "
-                 "by induction over the checked state invariant (paper step); that is why one step from any state is the "
-                 "right unit and a sampled history is not."),
-        "note": ("Trusted: decimal model crate (exact i64 mantissa arithmetic, 6-digit truncated division) in place of "
-                 "rust_decimal, Vec-backed HashMap, formatting and Affiliate::from_strep stubs, superficial-loss scan "
-                 "stubbed to 'not superficial' in the sell step (C02 owns it). Shapes fixed per harness; value ranges in "
-                 "evidence.bounds; the 1e-9 clause is carried from 6 to 28 digits on paper."),
-        "design_ref": "DESIGN.md 5 C01",
+                 "the model's truncated quotient), per affiliate, registered = shares only; plus the CsvTx defaults. "
+                 "Histories of any length follow by induction over the checked state invariant (paper step); that is why "
+                 "one step from any state is the right unit and a sampled history is not."),
+        "note": (TRUSTED + "Superficial-loss scan stubbed to 'not superficial' in the sell step (C02 owns it). Shapes "
+                 "fixed per harness; value ranges in evidence.bounds; the 1e-9 clause is carried from 6 to 28 digits on "
+                 "paper."),
+        "design_ref": "DESIGN.md 0, 5 C01",
+    },
+    "C02": {
+        "text": ("Bounded model checking of the real window scan + ratio computation around a loss sale: neighbours at "
+                 "every settlement offset 0..35 days on either side (so the 30/31-day boundary and same-day file order "
+                 "are decided, not sampled), symbolic share counts; oracle = the statement (in-window iff |days|<=30, "
+                 "superficial iff acquired>0 and held>0, numerator = min(sold, acquired, held), per-buyer portions, "
+                 "over-applied flag). Thorough adds other-affiliate / registered-buyer / later-sale shapes and the "
+                 "denied-amount and user-specified-SFL validation on get_delta_superficial_loss_info."),
+        "note": (TRUSTED + "Quick tier = one shape (Buy, loss sale, Buy by the seller); the other shapes, the amount "
+                 "(loss x ratio, effective-cent rule) and the 0.001/'!' validation are thorough-tier only (10-20 GB and "
+                 "20+ min each). 'gain = loss - denied' in delta_for_tx's loss branch is not separately encoded."),
+        "design_ref": "DESIGN.md 0, 5 C02",
+    },
+    "C06": {
+        "text": ("Bounded model checking of calc_security_cumulative_capital_gains on 3 hand-built rows with symbolic "
+                 "optional gains settling around a year boundary (trade date in the previous year): yearly figures keyed "
+                 "by settlement year, total = sum of rows = sum of years, no entry for a year without gains."),
+        "note": (TRUSTED + "Only the per-security sums are claimed. The aggregate over securities did not fit (21 GB) and "
+                 "the display-rounding clause needs Decimal's Display/format machinery, which is stubbed: both are "
+                 "outside this check."),
+        "design_ref": "DESIGN.md 0, 5 C06",
+    },
+    "C07": {
+        "text": ("Bounded model checking of Ord for Tx/CsvTx (equals the (settlement date, read index) tuple order for "
+                 "every pair, trade dates irrelevant) and of Vec<Tx>::sort on 3 rows with symbolic dates and every "
+                 "assignment of read indices: output ordered by (date, index), same rows, each with its own date."),
+        "note": (TRUSTED + "The CSV-text clauses (header case/padding, column permutation, unknown columns, file "
+                 "partition) are not covered: parse_tx_csv is behind csv::Reader."),
+        "design_ref": "DESIGN.md 0, 5 C07",
+    },
+    "C11": {
+        "text": ("Bounded model checking of the struct layer of the round trip: for every action and symbolic decimal "
+                 "fields, currencies/rates, separate commission currency, superficial-loss marker with force flag, split "
+                 "ratio with reverse_integer_only, default/other/global affiliate: Tx::try_from(tx.to_csvtx()) == tx, and "
+                 "the rate column is omitted exactly for CAD."),
+        "note": (TRUSTED + "The text layer (csv crate, regex-based to_string_min_precision and SplitRatio::parse, "
+                 "Display/from_str of 28-digit decimals, memo quoting, byte-identical rewrite) is not covered."),
+        "design_ref": "DESIGN.md 0, 5 C11",
+    },
+    "C15": {
+        "text": ("Bounded model checking of (a) the Split row: balance x post/pre, all-affiliate total adjusted by the "
+                 "difference, total cost unchanged, fractional result of a whole-number reverse split rejected; (b) the "
+                 "window scan with a split between an acquisition and the loss sale at symbolic offsets: acquired shares "
+                 "counted in the sale's split period, same verdict and ratio as the statement's restated history."),
+        "note": (TRUSTED + "Value-neutrality of a whole restated history is argued from these two lemmas (per-row rule + "
+                 "window counts), not run end to end. The look-ahead with inexact ratios is finding F1 (C04)."),
+        "design_ref": "DESIGN.md 0, 5 C15",
+    },
+    "C16": {
+        "text": ("Bounded model checking that seeding the ledger with an opening status (n shares, total cost c) and "
+                 "processing an opening purchase of n shares costing c from the empty ledger leave the same state for "
+                 "every affiliate (balance, all-affiliate total, cost base, latest status); every later row is a function "
+                 "of that state (C01 step harnesses)."),
+        "note": (TRUSTED + "parse_initial_status, the per-security lookup in approot and the 30-day distance of the "
+                 "equivalent purchase are outside the check."),
+        "design_ref": "DESIGN.md 0, 5 C16",
     },
 }
 
@@ -70,6 +218,5 @@ NOT_APPLICABLE = {
             "file-system model and a check that cannot tell an atomic-rename repair from the current code is not a check "
             "(DESIGN.md 5 C14)"),
 }
-for _p in ["C02", "C03", "C04", "C05", "C06", "C07", "C08", "C09", "C10", "C11", "C12", "C13", "C15", "C16", "C17",
-           "C18", "C19", "C20"]:
-    NOT_APPLICABLE.setdefault(_p, "harness family not built yet in this round (work in progress; see DESIGN.md 5)")
+for _p in ["C03", "C04", "C05", "C08", "C09", "C10", "C12", "C13", "C17", "C18", "C19", "C20"]:
+    NOT_APPLICABLE.setdefault(_p, "harness family not built yet in this round (work in progress; see DESIGN.md 0 and 5)")
